@@ -426,3 +426,45 @@ Proof.
     split; [exact H1|]. split; [exact H0|exact I]. }
   induction j as [|j IH]; [exact I|]. split; [exact Hin|]. rewrite Hsw. exact IH.
 Qed.
+
+(* ---------------------------------------------------------------------------------------- *)
+(* the stop rule of the generated function over the reals: `if fitchange < stoptol: break` with fitchange = |fitold - fit|                *)
+(* ---------------------------------------------------------------------------------------- *)
+Section GenTStop.
+Variable k_ttm_excl : dense R -> list (@matrix R) -> nat -> bool -> dense R.
+Variable k_nvecs : dense R -> nat -> nat -> @matrix R.
+Variable k_ttm_core : dense R -> list (@matrix R) -> nat -> bool -> dense R.
+Variable k_resid : R -> dense R -> R.
+Variable k_fit : R -> R -> R.
+Variable k_absdiff : R -> R -> R.
+Variable k_ttensor : dense R -> list (@matrix R) -> bool -> ttensor R.
+Hypothesis absdiff_spec : forall a b, k_absdiff a b = Rabs (a - b).
+
+Lemma fchange_lt_R fo fi tol : t_fchange_lt R Rleb k_absdiff fo fi tol = true <-> Rabs (fo - fi) < tol.
+Proof. unfold t_fchange_lt, Rleb. rewrite negb_involutive, absdiff_spec. apply Rltb_true. Qed.
+
+Theorem gen_tals_stop_rule (X : dense R) (normX : R) (rank dimorder : list nat) (Uinit : list (@matrix R)) (maxiters : nat) (stoptol : R)
+    (printitn : nat) (sol : ttensor R) (Uret : list (@matrix R)) (iters : nat) (nr fit : R) :
+  dimorder <> [] ->
+  GenTuckerAls.tucker_als_main R (@matrix R) (dense R) (ttensor R) Rleb 0 k_ttm_excl k_nvecs k_ttm_core k_resid k_fit k_absdiff k_ttensor
+    X Uinit normX rank dimorder maxiters stoptol printitn = Some (sol, Uret, (iters, nr, fit)) ->
+  let project := t_project (@matrix R) (dense R) k_ttm_excl X in
+  let fat := fit_at (@matrix R) (dense R) (dense R) R project k_nvecs (t_core_of (@matrix R) (dense R) k_ttm_core)
+               (t_normres_of R (dense R) k_resid normX) (t_fit_of R k_fit normX) rank dimorder Uinit in
+  let fbefore := fit_before (@matrix R) (dense R) (dense R) R project k_nvecs (t_core_of (@matrix R) (dense R) k_ttm_core)
+               (t_normres_of R (dense R) k_resid normX) (t_fit_of R k_fit normX) 0 rank dimorder Uinit in
+  (0 < maxiters)%nat /\ (iters < maxiters)%nat /\ fat iters = Some fit /\
+  (* no earlier iteration met the convergence test (fitold of iteration 0 is 0) *)
+  (forall i, (i < iters)%nat -> exists fo fi, fbefore i = Some fo /\ fat i = Some fi /\ ~ Rabs (fo - fi) < stoptol) /\
+  (* an exit before the limit means the test fired at the reported iteration *)
+  ((iters < maxiters - 1)%nat -> exists fo, fbefore iters = Some fo /\ Rabs (fo - fit) < stoptol).
+Proof.
+  intros Hne H project fat fbefore.
+  destruct (gen_tucker_spec R (@matrix R) (dense R) (ttensor R) Rleb 0 k_ttm_excl k_nvecs k_ttm_core k_resid k_fit k_absdiff k_ttensor
+              _ _ _ _ _ _ _ _ _ _ _ _ _ Hne H) as (A1 & A2 & _ & A4 & A5 & A6).
+  split; [exact A1|]. split; [exact A2|]. split; [exact A4|]. split.
+  - intros i Hi. destruct (A5 i Hi) as (fo & fi & B1 & B2 & B3). exists fo, fi. split; [exact B1|]. split; [exact B2|].
+    intros C. apply fchange_lt_R in C. congruence.
+  - intros Hlt. destruct (A6 Hlt) as (fo & B1 & B2). exists fo. split; [exact B1|]. now apply fchange_lt_R.
+Qed.
+End GenTStop.
